@@ -208,6 +208,11 @@ def run_for_property(prop, tier, work, log):
     if prop == 'C18':
         return _run_sel([h for h in NOALLOC if h[5] == 'quick' or tier == 'thorough'], work, log, extra_args=['--no-default-features'])
     sel = [h for h in HARNESSES if (prop in h[2] or (h[3] == 'shimval' and prop in SHIM_PROPS)) and (h[5] == 'quick' or tier == 'thorough')]
+    if tier == 'thorough' and prop in ('C01', 'C04', 'C10', 'C11', 'C12', 'C15'):
+        # independent bounded cross-check of the Verus layout proofs: the real per-type parsers on one concrete length each
+        import klayout
+        for (name, rel, domain) in klayout.harness_table():
+            sel.append((name, 'lib.rs', [prop], 'bounded', domain, 'thorough', 2400))
     return _run_sel(sel, work, log)
 
 
